@@ -68,11 +68,11 @@ def jobs(ctx):
             # thorough: every prefix with three suffixes (none, the matching one, the last), 1..2 (3) bytes; the bare bytes one longer
             for pi in range(len(pres)):
                 for si in sorted({0, min(pi, len(sufs) - 1), len(sufs) - 1}):
-                    nmax = 2 if heavy else 3
+                    nmax = (2 if pi == 0 else 1) if heavy else 3
                     for n in range(0 if pi + si == 0 else 1, nmax + 1):
                         combos.append((pi, si, n, 1 if n >= (2 if heavy else 3) else 0))
             for pre, suf in EXTRA_QUICK.get(d, []):
-                combos.append((pres.index(pre), sufs.index(suf), 2, 1))
+                combos.append((pres.index(pre), sufs.index(suf), 1 if heavy else 2, 1))
             combos.append((0, 0, 3 if heavy else 4, 1))
         for pi, si, n, ascii_ in combos:
             for nn in (range(0, n + 1) if (pi, si) == (0, 0) else (n,)):
@@ -90,7 +90,7 @@ def describe(ctx):
                        "len+3 times: end-of-input must be reached and repeat, every other token is non-empty, tokens come in source order without overlap and inside the source, "
                        "Line() equals 1 + the number of newlines before the token's first byte (Column() likewise for tm), and for json/simple the skipped text between tokens is "
                        "whitespace (and complete comments).",
-        "bounds": {"symbolic bytes": "quick: k<=2 free bytes (k<=3 ASCII for json/simple) without context, 1 free byte inside 3 contexts per lexer; thorough: k<=3 (2) after every prefix with three suffixes (none, matching, last), 4 (3) ASCII bytes without context",
+        "bounds": {"symbolic bytes": "quick: k<=2 free bytes (k<=3 ASCII for json/simple) without context, 1 free byte inside 3 contexts per lexer; thorough: k<=3 (json, simple) / 1 (test, tm, js) after every prefix with three suffixes (none, matching, last), 4 (3) ASCII bytes without context",
                    "contexts": "5-9 prefixes x 3-6 suffixes per lexer (thorough)"},
         "outside": ["longer symbolic parts", "generated lexers of random grammars (C11 corpus)", "gap contents of test/tm/js (their space rules are state dependent)"],
         "trusted": ["go/ssa", "symgo executor", "z3"],
